@@ -54,10 +54,25 @@ def norm_rows(rows):
     return sorted(out)
 
 
-def twin_check(facts, R, a, b, what):
+THREE_WAY_RENAMES = (
+    ("HandlerErased::handle_view(", "HandlerErased::handle_with_ctx("),
+    ("::handle_view::{closure", "::handle_with_ctx::{closure"),
+)
+
+
+def twin_check(facts, R, a, b, what, three_way=False):
     ba, bb = facts.body(a), facts.body(b)
     ra = norm_rows(value_rows(ba, Sym(ba), facts, 0))
     rb = norm_rows(value_rows(bb, Sym(bb), facts, 0))
+    if three_way:
+        def _tw(rows):
+            out = []
+            for x in rows:
+                for p_, q_ in THREE_WAY_RENAMES + (("::handle::{closure", "::handle_with_ctx::{closure"),):
+                    x = x.replace(p_, q_)
+                out.append(x)
+            return sorted(out)
+        ra, rb = _tw(ra), _tw(rb)
     same = ra == rb
     diff = ""
     if not same:
@@ -75,11 +90,19 @@ def run(facts, R):
     n_default = 0
     for im in impls:
         ms = im["methods"]
-        if "handle_view" in ms:
+        if "handle_view" in ms and "handle_with_ctx" in ms:
+            # a context-aware handler with its own borrowing path: the owned path is handle_with_ctx (handle only supplies a
+            # detached context), so that is what the borrowing path must agree with
+            n_over += 1
+            twin_check(facts, R, ms["handle_with_ctx"], ms["handle_view"], "handle_with_ctx == handle_view for " + im["self_ty"], three_way=True)
+            hb = facts.body(ms["handle"])
+            hrows = value_rows(hb, Sym(hb), facts, 0)
+            deleg = len(hrows) == 1 and (("handle_with_ctx(arg1, arg2" in hrows[0][1] and "detached(" in hrows[0][1]) or "HandlerErased::handle(arg1.0, arg2)" in hrows[0][1])
+            R.check(deleg, "handler-twins", ms["handle"], "handle delegates to handle_with_ctx with a detached context",
+                    "handle of a context-aware handler is %s" % [v[:160] for _, v in hrows], hb.span)
+        elif "handle_view" in ms:
             n_over += 1
             twin_check(facts, R, ms["handle"], ms["handle_view"], "handle == handle_view for " + im["self_ty"])
-            if "handle_with_ctx" in ms:
-                R.bad("handler-twins", ms["handle_view"], "three-way", "impl overrides both handle_with_ctx and handle_view: not covered by the twin table", None)
         else:
             n_default += 1
     R.floor("handler-twins", n_over, 4, "impls overriding handle_view")
@@ -290,6 +313,31 @@ def run(facts, R):
     for g, v in rows:
         if "inner" in v and "dispatched" in v:
             R.check(any("is Some" in x and "inner" in x for x in g), "lookup-order", gt.path, "exact hit returns immediately", "row %s under %s" % (v[:80], g), gt.span)
+
+    # ---------------- exact-key-verbatim: "an exactly registered path always wins" needs the exact table to be keyed by the very
+    # string that requests are looked up with.  Router::get looks the raw request path up; so every insert into the exact
+    # table stores the registration path unmodified (an owned copy), and the lookup key is the request path unmodified
+    def _verbatim(e):
+        while e[0] == "call" and len(e[2]) == 1 and e[1].rsplit("::", 1)[-1] in ("to_string", "to_owned", "into", "from", "clone", "as_ref", "as_str", "deref", "borrow", "to_str"):
+            e = e[2][0]
+        return e
+    n_ins = 0
+    for b_ in facts.bodies.values():
+        if not b_.path.startswith("server::Router::"):
+            continue
+        s_ = Sym(b_)
+        for i, t in b_.calls():
+            if t["callee"]["name"] == "insert" and "HashMap" in t["callee"]["path"] and len(t["args"]) == 3 and "RouterMapEntry" in (t.get("arg_tys") or ["", "", ""])[2]:
+                n_ins += 1
+                k = _verbatim(s_.op(t["args"][1]))
+                R.check(k[0] == "arg", "exact-key-verbatim", b_.path, "route stored under the registration path itself",
+                        "the exact-route table is keyed by %s, not by the path as registered: a request for the registered spelling misses the table and falls through to a mounted prefix"
+                        % render(s_.op(t["args"][1]))[:120], t.get("span"), "insert(path.to_string(), ..)")
+    R.floor("exact-key-verbatim", n_ins, 1, "inserts into the exact-route table")
+    for i, t in gt.calls():
+        if t["callee"]["name"] == "get" and "HashMap" in t["callee"]["path"] and "inner" in render(gs.op(t["args"][0])):
+            k = _verbatim(gs.op(t["args"][1]))
+            R.check(k[0] == "arg", "exact-key-verbatim", gt.path, "request path looked up as received", "Router::get looks up %s" % render(gs.op(t["args"][1]))[:120], t.get("span"), "inner.get(path)")
 
     # ---------------- prefix-boundary ------------------------------------------------------------------------------
     for fn, pfx in (("server::RegistryEntry::matches", "prefix"), ("server::StructEntry::matches", "root"),
